@@ -1,5 +1,5 @@
 (* Proofs about KV.Yaml.Fmt (the canonical formatter).  The model file contains no proofs. *)
-From KV Require Import Yaml.Fmt Yaml.FmtSort Yaml.FmtTablesRef.
+From KV Require Import Yaml.Fmt Yaml.FmtSort Yaml.FmtTablesRef Yaml.Resolve11.
 From Coq Require Import Permutation Sorted.
 
 Ltac inv H := inversion H; subst; clear H.
@@ -1697,3 +1697,89 @@ Proof.
   intros n s p n' AF H. pose proof (G n s p n' AF H) as A. split; auto.
   unfold anchors_ok. destruct (alias_free_scan n' [] A) as [s' E]. rewrite E. reflexivity.
 Qed.
+
+(* ---------- YAML 1.1 resolution inside the model (Yaml/Resolve11.v) ---------- *)
+
+Lemma safe_char_not_newline c : safe_char c = true -> negb (code c =? 10)%N = true.
+Proof.
+  destruct c as [b0 b1 b2 b3 b4 b5 b6 b7].
+  destruct b0, b1, b2, b3, b4, b5, b6, b7; vm_compute; auto.
+Qed.
+
+Lemma in_fragment_plain v : in_fragment v = true -> (String.eqb v "" || has_newline v) = false.
+Proof.
+  unfold in_fragment. rewrite !andb_true_iff. intros [[[[F A] _] _] _].
+  destruct v as [|c r]; [discriminate|]. cbn [String.eqb orb].
+  unfold has_newline. replace (all_chars (fun c0 => negb (code c0 =? 10)%N) (String c r)) with true; auto.
+  symmetry. clear F. induction (String c r) as [|d t IH]; cbn in *; auto.
+  apply andb_true_iff in A. destruct A as [A1 A2]. rewrite (safe_char_not_newline _ A1), IH; auto.
+Qed.
+
+Lemma resolve11_fragment v r : resolve11 v = Some r -> in_fragment v = true.
+Proof. unfold resolve11. destruct (in_fragment v); cbn; auto; discriminate. Qed.
+
+Lemma nonstr_m_resolved o v r : resolve11 v = Some r -> nonstr_m o v = negb (rtag_eqb r RStr).
+Proof.
+  intros H. unfold nonstr_m. rewrite (in_fragment_plain _ (resolve11_fragment _ _ H)), H. reflexivity.
+Qed.
+
+Lemma hastype_m_resolved o v r t : resolve11 v = Some r -> hastype_m o v t = rtag_has_type r t.
+Proof. intros H. unfold hastype_m. rewrite H. reflexivity. Qed.
+
+Section SchemaQuoteResolved.
+  Variable o1 : string -> bool.               (* residual oracles, consulted outside the fragment only *)
+  Variable o2 : string -> string -> bool.
+  Variables (h : hdr) (v : string) (r : rtag).
+  Hypothesis HR : resolve11 v = Some r.
+
+  Notation fns := (fmt_nonstring (nonstr_m o1) (hastype_m o2)).
+
+  (* a text that YAML 1.1 resolves to a string is never touched, whatever the schema says *)
+  Lemma sqr_string_untouched types format : r = RStr -> fns types format h v = h.
+  Proof. intros ->. apply sq_untouched. rewrite (nonstr_m_resolved _ _ _ HR). reflexivity. Qed.
+
+  (* a non-string text at a string-typed position is quoted and tagged !!str *)
+  Lemma sqr_quoted format :
+    r <> RStr -> String.eqb format "int-or-string" = false -> String.eqb (h_tag h) node_tag_null = false ->
+    style_quoted (h_style (fns ["string"] format h v)) = true /\ h_tag (fns ["string"] format h v) = "!!str".
+  Proof.
+    intros N F T. apply sq_string; auto. rewrite (nonstr_m_resolved _ _ _ HR). destruct r; auto; congruence.
+  Qed.
+
+  (* at a boolean / integer / number position: unquoted and tagged when the text has that type,
+     untouched otherwise *)
+  Lemma sqr_typed t format tg :
+    is_num_type t -> rtag_has_type r t = true -> assoc_str t type_to_tag = Some tg ->
+    String.eqb (h_tag h) node_tag_null = false ->
+    style_quoted (h_style (fns [t] format h v)) = false /\ h_tag (fns [t] format h v) = tg.
+  Proof.
+    intros Ht HT A T. apply sq_number; auto.
+    - rewrite (nonstr_m_resolved _ _ _ HR). destruct r; auto; destruct Ht as [->|[->| ->]]; discriminate.
+    - rewrite (hastype_m_resolved _ _ _ _ HR). exact HT.
+  Qed.
+
+  Lemma sqr_mistyped t format : is_num_type t -> rtag_has_type r t = false -> fns [t] format h v = h.
+  Proof. intros Ht HT. apply sq_mistyped; auto. rewrite (hastype_m_resolved _ _ _ _ HR). exact HT. Qed.
+End SchemaQuoteResolved.
+
+(* concrete instances, whatever the residual oracles answer *)
+Example resolve11_examples :
+  map resolve11 ["yes"; "On"; "yEs"; "~"; "010"; "08"; "0x1F"; "0o7"; "1_000"; "1e3"; ".5"; "-.inf"; "1.2.3"; "web"; "-x"] =
+  [Some RBool; Some RBool; Some RStr; Some RNull; Some RInt; Some RFloat; Some RInt; Some RInt; Some RInt;
+   Some RFloat; Some RFloat; Some RFloat; Some RStr; Some RStr; Some RStr] /\
+  map resolve11 ["2001-01-01"; "a b"; "a: b"; "1e100"; "-"; ""] = [None; None; None; None; None; None].
+Proof. split; vm_compute; reflexivity. Qed.
+
+Example schema_quote_examples : forall o1 o2,
+  let plain := mkHdr "" "" "" "" "!!str" 0 in
+  let quoted := mkHdr "" "" "" "" "!!str" 2 in
+  (* label value `on` (string position): quoted *)
+  fmt_nonstring (nonstr_m o1) (hastype_m o2) ["string"] "" (mkHdr "" "" "" "" "!!bool" 0) "on" =
+    mkHdr "" "" "" "" "!!str" 2 /\
+  (* replicas: "3" (integer position): unquoted, !!int *)
+  fmt_nonstring (nonstr_m o1) (hastype_m o2) ["integer"] "int32" quoted "3" = mkHdr "" "" "" "" "!!int" 0 /\
+  (* replicas: "true" (integer position): left as written *)
+  fmt_nonstring (nonstr_m o1) (hastype_m o2) ["integer"] "int32" quoted "true" = quoted /\
+  (* image: nginx : untouched *)
+  fmt_nonstring (nonstr_m o1) (hastype_m o2) ["string"] "" plain "nginx" = plain.
+Proof. intros o1 o2. repeat split; vm_compute; reflexivity. Qed.
